@@ -14,6 +14,9 @@ pub enum Prog {
     Arith(usize, Box<Prog>, Box<Prog>), Neg(Box<Prog>),
     /// partial_iter_relaxed(idxs, mode): mode 0 = Error, 1 = PerOperand, 2 = None
     Partial(Vec<usize>, usize, Box<Prog>),
+    /// the named helper methods of DeepEx (`.sin()`, `.abs()`, ...) and the overloads `& | ^ %`; the model reads them as
+    /// operate_unary / operate_binary with that name (operands are taken as deep expressions)
+    HelperUn(String, Box<Prog>), HelperBin(String, Box<Prog>, Box<Prog>),
 }
 #[derive(Clone, Debug, PartialEq)]
 pub enum Query { Vars, Eval(usize), Relaxed(usize), EvalVec(usize), Unparse, BinReprs, UnReprs, OpReprs }
@@ -47,6 +50,14 @@ pub fn run(p: &Prog) -> ExResult<Expr> {
         Prog::Arith(op, p, q) => { let a = run(p)?.to_deep()?; let b = run(q)?.to_deep()?;
             Expr::D(match op { 0 => (a + b)?, 1 => (a - b)?, 2 => (a * b)?, 3 => (a / b)?, _ => a.pow(b)? }) }
         Prog::Neg(p) => Expr::D((-(run(p)?.to_deep()?))?),
+        Prog::HelperUn(name, p) => { let d = run(p)?.to_deep()?;
+            Expr::D(match name.as_str() {
+                "abs" => d.abs(), "sin" => d.sin(), "cos" => d.cos(), "tan" => d.tan(), "sinh" => d.sinh(), "cosh" => d.cosh(), "tanh" => d.tanh(),
+                "asin" => d.asin(), "acos" => d.acos(), "atan" => d.atan(), "signum" => d.signum(), "log" => d.log(), "log2" => d.log2(), "log10" => d.log10(),
+                "ln" => d.ln(), "round" => d.round(), "floor" => d.floor(), "ceil" => d.ceil(), "exp" => d.exp(), "sqrt" => d.sqrt(), "cbrt" => d.cbrt(),
+                "fract" => d.fract(), "trunc" => d.trunc(), _ => d.operate_unary(leak(name)) }?) }
+        Prog::HelperBin(name, p, q) => { let a = run(p)?.to_deep()?; let b = run(q)?.to_deep()?;
+            Expr::D(match name.as_str() { "&" => (a & b)?, "|" => (a | b)?, "^" => (a ^ b)?, "%" => (a % b)?, _ => a.operate_binary(b, leak(name))? }) }
         Prog::Partial(idxs, mode, p) => { let m = match mode { 0 => MissingOpMode::Error, 1 => MissingOpMode::PerOperand, _ => MissingOpMode::None };
             match run(p)? { Expr::F(f) => Expr::F(f.partial_iter_relaxed(idxs.iter().copied(), m)?), Expr::D(d) => Expr::D(d.partial_iter_relaxed(idxs.iter().copied(), m)?) } }
         Prog::ReFlat(p) => { let t = match run(p)? { Expr::F(f) => f.unparse().to_string(), Expr::D(d) => d.unparse().to_string() }; Expr::F(FE::parse(leak(&t))?) }
@@ -126,6 +137,8 @@ pub fn g_prog(p: &Prog) -> String {
         Prog::Un(n, p) => format!("(PUn {} {})", g_str(n), g_prog(p)),
         Prog::Arith(op, p, q) => format!("(PArith {op} {} {})", g_prog(p), g_prog(q)),
         Prog::Neg(p) => format!("(PNeg {})", g_prog(p)),
+        Prog::HelperUn(n, p) => format!("(PUn {} (PToDeep {}))", g_str(n), g_prog(p)),
+        Prog::HelperBin(n, p, q) => format!("(PBin {} (PToDeep {}) (PToDeep {}))", g_str(n), g_prog(p), g_prog(q)),
         Prog::Partial(idxs, mode, p) => format!("(PPartial [{}]%nat {mode} {})", idxs.iter().map(|i| i.to_string()).collect::<Vec<_>>().join(";"), g_prog(p)),
         Prog::ReFlat(p) => format!("(PReFlat {})", g_prog(p)),
         Prog::ReDeep(p) => format!("(PReDeep {})", g_prog(p)),
@@ -160,6 +173,8 @@ pub fn pretty_prog(p: &Prog) -> String {
         Prog::Un(n, p) => format!("{}.operate_unary({n:?})", pretty_prog(p)),
         Prog::Arith(op, p, q) => format!("({} {} {})", pretty_prog(p), ["+", "-", "*", "/", "pow"][(*op).min(4)], pretty_prog(q)),
         Prog::Neg(p) => format!("-({})", pretty_prog(p)),
+        Prog::HelperUn(n, p) => format!("{}.to_deepex().{n}()", pretty_prog(p)),
+        Prog::HelperBin(n, p, q) => format!("({}.to_deepex() {n} {}.to_deepex())", pretty_prog(p), pretty_prog(q)),
         Prog::Partial(idxs, mode, p) => format!("{}.partial_iter_relaxed({idxs:?}, mode {mode})", pretty_prog(p)),
         Prog::ReFlat(p) => format!("FlatEx::parse({}.unparse())", pretty_prog(p)),
         Prog::ReDeep(p) => format!("DeepEx::parse({}.unparse())", pretty_prog(p)),
